@@ -76,6 +76,17 @@ class CoopRLock(CoopLock):
     _reentrant = True
 
 
+class _real_locks:
+    """Temporarily the real lock factories (for threading's own objects: Thread, Semaphore, Condition, Event)."""
+
+    def __enter__(self):
+        self.was = threading.Lock, threading.RLock
+        threading.Lock, threading.RLock = _RealLock, _RealRLock
+
+    def __exit__(self, *a):
+        threading.Lock, threading.RLock = self.was
+
+
 class Execution:
     def __init__(self, bodies, prefix, roots):
         self.bodies = bodies
@@ -85,11 +96,13 @@ class Execution:
         self.choices = []
         self.points = []  # (n_enabled, running_enabled, preemptions so far)
         self.preemptions = 0
-        self.sems = [threading.Semaphore(0) for _ in bodies]
+        # the scheduler's own primitives are built on REAL locks, whatever factories are installed at the moment
+        with _real_locks():
+            self.sems = [threading.Semaphore(0) for _ in bodies]
+            self.finished = threading.Semaphore(0)
         self.done = [False] * self.n
         self.waiting = {}  # tid -> lock
         self.results = [None] * self.n
-        self.finished = threading.Semaphore(0)
         self.error = None
 
     # ---- scheduling
@@ -192,14 +205,10 @@ class Execution:
         # threads are created and started (they wait for the baton) with the REAL lock factories in place: threading's own
         # machinery must keep real locks.  Everything else - the reload of the modules under test in setup() included -
         # happens with the cooperative factories (see coop_locks()).
-        was = threading.Lock, threading.RLock
-        threading.Lock, threading.RLock = _RealLock, _RealRLock
-        try:
+        with _real_locks():
             threads = [threading.Thread(target=self._run, args=(t,), daemon=True) for t in range(self.n)]
             for t in threads:
                 t.start()
-        finally:
-            threading.Lock, threading.RLock = was
         try:
             try:
                 first = self._choose(None, False)
@@ -237,17 +246,18 @@ class coop_locks:
         threading.Lock, threading.RLock = _RealLock, _RealRLock
 
 
-def explore(setup, bound=2, max_executions=50_000):
+def explore(setup, bound=2, max_executions=50_000, thin=None):
     with coop_locks():
-        return _explore(setup, bound, max_executions)
+        return _explore(setup, bound, max_executions, thin)
 
 
-def _explore(setup, bound, max_executions):
+def _explore(setup, bound, max_executions, thin=None):
     """setup() -> (bodies, judge): fresh state, thread bodies, judge(results, deadlock) -> description or None.
     -> dict(executions, max_points, violation=(schedule, description) or None, complete)"""
     roots = (loader.REPO,)
     stack = [[]]
     n = maxp = 0
+    thinned = False
     while stack:
         prefix = stack.pop()
         bodies, judge = setup()
@@ -258,7 +268,15 @@ def _explore(setup, bound, max_executions):
         what = judge(ex.results, str(ex.error) if isinstance(ex.error, Deadlock) else None)
         if what:
             return {"executions": n, "max_points": maxp, "violation": (list(ex.choices), what), "complete": False}
+        # an execution with very many scheduling points (a long loop in the code under test): only every k-th point gets
+        # its alternatives, k chosen so that about `thin` of them do - reported as thinned, never as complete
+        step = 1
+        if thin and len(ex.points) > thin:
+            step = -(-len(ex.points) // thin)
+            thinned = True
         for i in range(len(prefix), len(ex.points)):
+            if step > 1 and i % step:
+                continue
             n_enabled, running_enabled, pre = ex.points[i]
             cost = pre + (1 if running_enabled else 0)
             if cost > bound:
@@ -267,7 +285,7 @@ def _explore(setup, bound, max_executions):
                 stack.append(ex.choices[:i] + [alt])
         if n >= max_executions:
             return {"executions": n, "max_points": maxp, "violation": None, "complete": False}
-    return {"executions": n, "max_points": maxp, "violation": None, "complete": True}
+    return {"executions": n, "max_points": maxp, "violation": None, "complete": not thinned, "thinned": thinned}
 
 
 def replay_schedule(setup, schedule):
@@ -318,10 +336,14 @@ def _one_case(job):
     from . import threadcases
 
     loader.install_shims()
+    if __import__("os").environ.get("VERIF_E6_DEBUG"):
+        import faulthandler
+
+        faulthandler.dump_traceback_later(int(__import__("os").environ["VERIF_E6_DEBUG"]), exit=True)
     setup = threadcases.cases(pid)[label]
     # iterate the bound (fewest preemptions first): 1 always; 2 when the executions are short enough for the tier's
     # budget (about points^2 / 2 schedules); 3 in the thorough tier for very short ones
-    r = explore(setup, 1)
+    r = explore(setup, 1, thin=400 if tier == "quick" else 4000)
     r["bound"] = 1
     total = r["executions"]
     for bound, limit in ((2, 90 if tier == "quick" else 260), (3, 0 if tier == "quick" else 45)):
@@ -349,6 +371,8 @@ def run_cases(pid, tier="quick"):
         cov["preemption_bounds"][label] = r["bound"]
         cov["max_scheduling_points"] = max(cov["max_scheduling_points"], r["max_points"])
         cov["all_complete"] &= r["complete"] or r["violation"] is not None
+        if r.get("thinned"):
+            cov.setdefault("thinned_cases", []).append(label)
         if r["violation"]:
             sched, what = r["violation"]
             sched = _trim(sched)
